@@ -104,6 +104,7 @@ def run(ctx):
     jobs = [["pipeline", ctx.seed, ctx.tier, s, nsh] for s in range(nsh)]
     jobs.append(["sharegen", ctx.seed, 40 if ctx.quick else 600])
     jobs.append(["leq", ctx.seed, 40 if ctx.quick else 400])
+    jobs.append(["keylen", ctx.seed])
     ctx.log("running %d harness processes" % len(jobs))
     results = run_many(binp, jobs, tmo)
     recs = []
@@ -151,6 +152,7 @@ def run(ctx):
         ncfg_ok += 1
         good = r.get("pio") == "Ok" and r.get("validate") == "OK" and r.get("issue") == "OK" and (r["v1"] or r.get("initial_cdi") == "OK")
         bump("issue_v1" if r["v1"] else "issue_v0")
+        bump("issue_provider_%s" % ("superset" if r.get("provider_superset") else "exact"))
         if good:
             nontrivial.add(key)
         else:
@@ -363,6 +365,27 @@ def run(ctx):
             nontrivial.add(key)
         ctx.cov["traces_validated_against_impl"] += 1
 
+    # ---------------------------------------------------------------- provider key length boundary
+    kf_ids = {f["id"] for f in c.load_known_findings()["findings"] if f.get("property") == "C08"}
+    for r in by.get("keylen", []):
+        key = c.digest(["keylen", r["n"], r["attrs"], r["delta"]])
+        seen.add(key)
+        bump("keylen_delta_%d_%s" % (r["delta"], "issued" if r.get("issue") == "OK" else "refused"))
+        if r.get("issue") != "OK":
+            if r["delta"] >= 0:
+                viol(r, "provider REFUSED an identity request although its PS key (length %d) covers %d attributes + %d revoker scalars + 5" % (r["len"], r["attrs"], r["m"]))
+            else:
+                nontrivial.add(key)
+            continue
+        if r.get("created") == "Ok" and r.get("verified") == "OK":
+            nontrivial.add(key)
+            continue
+        if (r["delta"] == 0 and r.get("created") == "Err" and "PS key must be long enough" in r.get("why", "") and "KF-C08-1" in kf_ids):
+            ctx.known_finding("KF-C08-1", "identity object issued under a minimal-length provider key (n+m+5 generators) cannot be turned into a credential (holder-side length check is strict)")
+            continue
+        viol(r, "identity object issued with provider key length %d (= n+m+5%+d) but credential created=%s verified=%s: %s" % (
+            r["len"], r["delta"], r.get("created"), r.get("verified"), r.get("why", "")))
+
     # ---------------------------------------------------------------- perturbation stream
     pk = {}
     for r in by.get("pert", []):
@@ -396,7 +419,8 @@ def run(ctx):
     ctx.cov["rule"] = ("configurations: every (n revokers, threshold t) with 1<=t<=n<=%d x {v0,v1} plus sampled n up to 20 and threshold n+1 (must be refused); "
                        "revoker identities contiguous or sparse u32 incl. 2^32-1; attribute lists of 0-4 attributes, policies revealing none/some/all; "
                        "max_accounts in {0,1,2,3,200,237,254,255}, counters 0,1,max-1,max (accept) and max+1 (reject/unproducible); new and existing accounts; "
-                       "credential-creation context = the chosen revokers or a strict superset of them (ar_data must cover exactly the chosen ones); "
+                       "provider / holder / chain contexts each = the chosen revokers or a strict superset in which the chosen set is NOT a prefix in id order "
+                       "(first omitted, gaps, only the largest ids; ar_data must cover exactly the chosen ones); provider PS key length at n+m+5-1..+2; "
                        "every revoker subset for n<=5 (sizes >= t reconstruct, < t must not), sampled subsets above; perturbation stream (modify / remove / ADD an entry in every map- or list-valued part) over every field of values, "
                        "commitments, proof components, byte flips and context, raw and re-signed; non-trivial = case whose expected verdict was observed on the real code; "
                        "distinct = canonical case hash") % (4 if ctx.quick else 5)
